@@ -338,16 +338,21 @@ def foreach(ctx: Ctx, rep: Report) -> None:
     rd = ctx.rd(f)
     qn = 'ForEachBlockPass.run'
     # collection: blocks hold (cycle, op) of ops passing the filter
-    coll = [t for t in g.nodes if q.is_test_with_call(
-        'self.collection_filter', ['op'])(t)]
-    app = [n for n in g.nodes if q.has_call('blocks.append')(n)]
+    # (the engine reads the append loop and the list comprehension as the
+    # same comprehension)
+    coll = [a for a in ast.walk(f.node) if isinstance(a, ast.Assign)
+            and norm(a.targets[0]) == 'blocks'
+            and isinstance(a.value, ast.ListComp)]
     rep.count(10)
-    ok = len(coll) == 1 and len(app) == 1 and q.dominated(
-        g, app[0], coll[0], 'true')
-    lp = [n for n in g.nodes if n.kind == 'for' and norm(
-        n.stmt.iter) == 'circuit.operations_with_cycles()']
-    ok = ok and bool(lp) and app[0].id in g.in_loop_body(lp[0]) and any(
-        a == ['(cycle, op)'] for fn, a, _c in q.call_texts(app[0]))
+    ok = len(coll) == 1 and len(coll[0].value.generators) == 1
+    if ok:
+        gen = coll[0].value.generators[0]
+        ok = (
+            norm(gen.iter) == 'circuit.operations_with_cycles()'
+            and norm(gen.target) == '(cycle, op)'
+            and [norm(x) for x in gen.ifs] == ['self.collection_filter(op)']
+            and norm(coll[0].value.elt) == '(cycle, op)'
+        )
     rep.check(
         ok, 'SPEC', qn, f.path, f.lineno,
         'blocks = the (cycle, op) pairs accepted by the collection filter, '
